@@ -76,7 +76,11 @@ class Ctx:
         viol = [i for i in self.instances if not i["ok"]]
         reported, suppressed = [], []
         for v in viol:
-            k = next((k for k in known if k.get("key") == v["key"]), None)
+            base = v["key"]
+            for suf in (":SEC", ":DBG", ":PAD"):
+                if base.endswith(suf):
+                    base = base[:-len(suf)]
+            k = next((k for k in known if k.get("key") in (v["key"], base)), None)
             if k is not None:
                 suppressed.append((v, k))
             else:
